@@ -665,6 +665,44 @@ def rule_redeclared(chk, prog, tier):
         if not ok and got_ok:
             r.violation('redeclared-class: an enumerator that redeclares an identifier of the same scope is accepted (the later value wins)', 'decl.c:tagspec', 'enum { %s } is accepted' % ', '.join(names)); continue
         r.instance(got_ok == ok, 'redeclared:enumerators(%s)' % ', '.join(names), 'decl.c:tagspec', 'must be %s; cproc: %s' % ('accepted' if ok else 'diagnosed', runs[0].outcome))
+    # ---- an enum specifier without an enumerator list needs a complete enum type (the back end has no class for an incomplete one)
+    for form, ok in (('enum e ;', False), ('enum e x', False), ('enum e *', False), ('enum e : T ;', True), ('enum e : T *', True), ('struct s ;', True), ('struct s *', True), ('enum e { A }', True)):
+        def runner(it):
+            w = World(prog, it=it, target='x86_64-sysv')
+            MAP = {'enum': 'TENUM', 'struct': 'TSTRUCT', ';': 'TSEMICOLON', '*': 'TMUL', ':': 'TCOLON', '{': 'TLBRACE', '}': 'TRBRACE'}
+            toks = [MAP.get(p_, ('TYPE', 'uchar') if p_ == 'T' else ('TIDENT', p_)) for p_ in form.split()] + ['TSEMICOLON']
+            tokobj = it.gobj('tok'); st = {'i': 0}
+            def cur(): return toks[min(st['i'], len(toks) - 1)]
+            def load():
+                t = cur()
+                tokobj.f[('kind',)] = ev(prog, t if isinstance(t, str) else ('TIDENT' if t[0] == 'TIDENT' else 'TUNSIGNED'))
+                tokobj.f[('lit',)] = Ptr(it.mkstr(list(t[1].encode()), t[1]), (0,)) if isinstance(t, tuple) and t[0] == 'TIDENT' else None
+                tokobj.f[('loc', 'file')] = None; tokobj.f[('loc', 'line')] = 1; tokobj.f[('loc', 'col')] = 1
+            def nxt(i2, a, e): st['i'] += 1; load(); return None
+            def consume(i2, a, e):
+                if isinstance(cur(), str) and tokobj.f[('kind',)] == a[0]: nxt(i2, a, e); return 1
+                return 0
+            def expect(i2, a, e):
+                if not isinstance(cur(), str) or tokobj.f[('kind',)] != a[0]: raise Terminal('error', 'expected token')
+                nxt(i2, a, e); return None
+            def declspecs(i2, a, e):
+                t = cur()
+                if isinstance(t, tuple) and t[0] == 'TYPE':
+                    nxt(i2, a, e); return StructVal({('type',): w.t(t[1]), ('qual',): 0, ('expr',): None})
+                return StructVal({('type',): None, ('qual',): 0, ('expr',): None})
+            it.models.update({'next': nxt, 'consume': consume, 'expect': expect, 'declspecs': declspecs, 'attr': lambda i2, a, e: 0, 'gnuattr': lambda i2, a, e: 0,
+                              'scopegettag': lambda i2, a, e: None, 'scopeputtag': lambda i2, a, e: None, 'scopegetdecl': lambda i2, a, e: None, 'scopeputdecl': lambda i2, a, e: None,
+                              'structdecl': lambda i2, a, e: nxt(i2, a, e), 'mkintconst': lambda i2, a, e: ('const', a[0]), 'xmalloc': lambda i2, a, e: Ptr(Obj('heap@%s' % e.get('line'), 'heap'), ()),
+                              'error': lambda i2, a, e: (_ for _ in ()).throw(Terminal('error', cmodel.fmt_of(i2, a, 1))),
+                              'fatal': lambda i2, a, e: (_ for _ in ()).throw(Terminal('fatal', cmodel.fmt_of(i2, a, 0)))})
+            load()
+            it.call(ts, [Ptr(Obj('scope', 'heap'), ())])
+            return 'accepted'
+        runs = explore(prog, runner, {}, max_runs=4, on_unsupported='keep')
+        if len(runs) != 1 or runs[0].outcome == 'unsupported':
+            raise AnalysisBroken('tagspec %s: %s' % (form, runs[0].detail if runs else 'no run'))
+        got_ok = runs[0].outcome == 'return'
+        r.instance(got_ok == ok, 'tag-reference:%s' % form, 'decl.c:tagspec', 'must be %s (C11 6.7.2.3p3; a fixed underlying type completes the type, C23 6.7.2.2); cproc: %s %s' % ('accepted' if ok else 'diagnosed', runs[0].outcome, runs[0].detail if not got_ok else ''))
     r.exhaustive = False
 
 
@@ -756,6 +794,77 @@ def rule_incdec(chk, prog, tier):
     r.exhaustive = True
 
 
+# ------------------------------------------------------------------ C10.n incomplete types in function definitions and calls
+
+def rule_incomplete_signatures(chk, prog, tier):
+    r = chk.rule('C10.n', 'a function whose return type or parameter type is incomplete may be declared but neither defined nor called: the definition and the call are diagnosed (void as return type excepted), the declaration and every use of complete or pointer types is accepted',
+                 floor=40, oracle='C11 6.9.1p3, 6.9.1p7, 6.5.2.2p1, 6.5.2.2p4')
+    from props import c09
+    models = c09.decl_models(prog, None)
+    decl_fn = prog.require_func('decl', 'decl.c'); flush_fn = prog.require_func('emittentativedefns', 'decl.c')
+    RET = ['int', 'void', 'Scomplete', 'Sincomplete', 'PSincomplete']
+    PARAMS = [[], ['int'], ['Scomplete'], ['Sincomplete'], ['PSincomplete'], ['int', 'Sincomplete'], ['Sincomplete', 'int'], ['Scomplete', 'PSincomplete']]
+    for ret in RET:
+        for params in PARAMS:
+            bad = ret == 'Sincomplete' or 'Sincomplete' in params
+            for body in (False, True):
+                hist = [c09.D('func', 'file', (), init=body, fty=(ret, params))]
+                try:
+                    steps, final, ik = c09.run_history(prog, models, hist, decl_fn, flush_fn)
+                    outcome = steps[0][0]
+                except AnalysisBroken as x:
+                    outcome = 'broken: %s' % str(x)[-160:]
+                key = 'signature:%s f(%s)%s' % (ret, ', '.join(params), ' {...}' if body else ';')
+                if body and bad: r.instance(outcome.startswith('diag'), key, 'decl.c:decl', 'a definition with an incomplete return or parameter type must be diagnosed; got %s' % outcome)
+                else: r.instance(outcome == 'ok', key, 'decl.c:decl', 'valid; got %s' % outcome)
+    # ---- calls
+    pf = prog.require_func('postfixexpr', 'expr.c')
+    for ret in RET:
+        for params in PARAMS:
+            def runner(it):
+                dw = c09.DeclWorld(prog, it)
+                w = dw.w
+                ft = dw.mkfunctype(ret, params)
+                ft.obj.f[('prop',)] = 0
+                callee = w.temp(w.mkptr(ft), 'fn')
+                aexprs = [w.temp(dw.tyclass(pn), 'a%d' % i) for i, pn in enumerate(params)]
+                seq = ['TLPAREN']
+                for i in range(len(params)):
+                    if i: seq.append('TCOMMA')
+                    seq.append(None)
+                seq += ['TRPAREN', 'TSEMICOLON']
+                st = {'i': 0, 'a': 0}
+                tokobj = it.gobj('tok')
+                def load():
+                    k = seq[min(st['i'], len(seq) - 1)]
+                    tokobj.f[('kind',)] = ev(prog, k) if k else ev(prog, 'TIDENT')
+                    tokobj.f[('lit',)] = None
+                    tokobj.f[('loc', 'file')] = None; tokobj.f[('loc', 'line')] = 1; tokobj.f[('loc', 'col')] = 1
+                def nxt(it2, a, e): st['i'] += 1; load(); return None
+                def assignexpr(it2, a, e):
+                    ex = aexprs[st['a']]; st['a'] += 1
+                    st['i'] += 1; load()
+                    return ex
+                def expect(it2, a, e):
+                    if tokobj.f[('kind',)] != a[0]: raise Terminal('error', 'expect')
+                    nxt(it2, a, e); return None
+                it.models.update({'next': nxt, 'assignexpr': assignexpr, 'expect': expect,
+                                  'error': lambda i2, a, e: (_ for _ in ()).throw(Terminal('error', cmodel.fmt_of(i2, a, 1))),
+                                  'fatal': lambda i2, a, e: (_ for _ in ()).throw(Terminal('fatal', a))})
+                load()
+                it.call(pf, [Ptr(Obj('scope', 'heap'), ()), callee])
+                return 'accepted'
+            runs = explore(prog, runner, {}, max_runs=4, on_unsupported='keep')
+            key = 'call:%s f(%s)' % (ret, ', '.join(params))
+            if len(runs) != 1 or runs[0].outcome == 'unsupported':
+                raise AnalysisBroken('%s: %s' % (key, [(x.outcome, x.detail) for x in runs][:2]))
+            bad = ret == 'Sincomplete' or 'Sincomplete' in params
+            got = runs[0].outcome
+            if bad: r.instance(got == 'terminal:error', key, 'expr.c:postfixexpr', 'a call through an incomplete return or parameter type must be diagnosed; got %s %s' % (got, runs[0].detail or ''))
+            else: r.instance(got == 'return', key, 'expr.c:postfixexpr', 'valid call; got %s %s' % (got, runs[0].detail or ''))
+    r.exhaustive = True
+
+
 def run(chk, tier):
     from props import c01f
     prog = facts.programs()['cproc-qbe']
@@ -775,5 +884,6 @@ def run(chk, tier):
     chk.guard('C10.k', lambda: rule_redeclared(chk, prog, tier))
     chk.guard('C10.l', lambda: rule_subscript(chk, prog, tier))
     chk.guard('C10.m', lambda: rule_incdec(chk, prog, tier))
+    chk.guard('C10.n', lambda: rule_incomplete_signatures(chk, prog, tier))
     from props import c09
     chk.guard('C09.f', lambda: c09.rule_redecl_types(chk, prog, tier))
